@@ -62,6 +62,16 @@ func (*hostile) IndexSet(_, _ ugo.Object) error          { panic("hostile.IndexS
 
 type customPanic struct{ n int }
 
+// error values that fault when they are inspected: a typed-nil pointer whose Error dereferences the receiver, and an
+// error whose Error method panics itself. A callback that panics with one of these is still just a panicking callback.
+type derefErr struct{ msg string }
+
+func (e *derefErr) Error() string { return e.msg }
+
+type panickyErr struct{}
+
+func (panickyErr) Error() string { panic("panickyErr.Error") }
+
 type c06stats struct {
 	callbackPanics int
 	objectPanics   int
@@ -92,6 +102,20 @@ func c06globals(st *c06stats) ugo.Map {
 		"PANICNIL": &ugo.Function{Name: "PANICNIL", Value: func(...ugo.Object) (ugo.Object, error) {
 			st.callbackPanics++
 			var e error
+			panic(e)
+		}},
+		"PANICTYPEDNIL": &ugo.Function{Name: "PANICTYPEDNIL", Value: func(...ugo.Object) (ugo.Object, error) {
+			st.callbackPanics++
+			var e *derefErr
+			panic(e)
+		}},
+		"PANICBADERR": &ugo.Function{Name: "PANICBADERR", Value: func(...ugo.Object) (ugo.Object, error) {
+			st.callbackPanics++
+			panic(panickyErr{})
+		}},
+		"PANICNILRTE": &ugo.Function{Name: "PANICNILRTE", Value: func(...ugo.Object) (ugo.Object, error) {
+			st.callbackPanics++
+			var e *ugo.RuntimeError
 			panic(e)
 		}},
 		"ERRFN": &ugo.Function{Name: "ERRFN", Value: func(...ugo.Object) (ugo.Object, error) {
@@ -130,7 +154,7 @@ var c06faults = []string{
 	"arr[99]", "arr[-1]", "arr[9223372036854775807]", "arr[1:0]", "arr[0:99]", "\"abc\"[5:]", "arr[-1:]", "bytes(1, 2)[0:9]", "{a: 1}.a.b.c", "1[0]",
 	"undefined()", "(5)(1)", "undefined.a.b()", "func(a) { return a }(1, 2, 3)", "func(a, ...b) { return a }()", "func(a) { return a }(...5)",
 	"func() { for x in 5 { } }()", "int(\"zz\")", "len()", "error()", "\"s\" - 1", "undefined + 1", "[1] < [2]",
-	"PANICSTR()", "PANICERR()", "PANICRT()", "PANICCUSTOM()", "PANICNIL()", "ERRFN()", "ABORTPANIC()", "ABORTERR()",
+	"PANICSTR()", "PANICERR()", "PANICRT()", "PANICCUSTOM()", "PANICNIL()", "PANICTYPEDNIL()", "PANICBADERR()", "PANICNILRTE()", "ERRFN()", "ABORTPANIC()", "ABORTERR()",
 	"OBJ + 1", "1 + OBJ", "OBJ.x", "OBJ[0]", "OBJ()", "OBJ.meth(1)", "func() { for x in OBJ { } }()", "string(OBJ)", "OBJ == 1", "!OBJ", "func() { OBJ.x = 1 }()",
 	"func() { var r; r = func() { return r() + 1 }; return r() }()",
 	"func() { var r; r = func(a, b, c, d, e, f, g, h) { x1 := a; x2 := b; x3 := c; return r(x1, x2, x3, d, e, f, g, h) + 1 }; return r(1, 2, 3, 4, 5, 6, 7, 8) }()",
@@ -157,22 +181,22 @@ type c06ctx struct {
 }
 
 var c06contexts = []c06ctx{
-	{"plain", "global (zero, neg, arr, G, OBJ, PANICSTR, PANICERR, PANICRT, PANICCUSTOM, PANICNIL, ERRFN, INVOKE, ABORTPANIC, ABORTERR)\nthrowing := func() { throw error(\"thrown\") }\nreturn %s\n"},
-	{"try", "global (zero, neg, arr, G, OBJ, PANICSTR, PANICERR, PANICRT, PANICCUSTOM, PANICNIL, ERRFN, INVOKE, ABORTPANIC, ABORTERR)\nthrowing := func() { throw error(\"thrown\") }\ntry {\n  return %s\n} catch e {\n  return \"caught:\" + e.Name\n}\n"},
+	{"plain", "global (zero, neg, arr, G, OBJ, PANICSTR, PANICERR, PANICRT, PANICCUSTOM, PANICNIL, PANICTYPEDNIL, PANICBADERR, PANICNILRTE, ERRFN, INVOKE, ABORTPANIC, ABORTERR)\nthrowing := func() { throw error(\"thrown\") }\nreturn %s\n"},
+	{"try", "global (zero, neg, arr, G, OBJ, PANICSTR, PANICERR, PANICRT, PANICCUSTOM, PANICNIL, PANICTYPEDNIL, PANICBADERR, PANICNILRTE, ERRFN, INVOKE, ABORTPANIC, ABORTERR)\nthrowing := func() { throw error(\"thrown\") }\ntry {\n  return %s\n} catch e {\n  return \"caught:\" + e.Name\n}\n"},
 	// main has no local variable at all: the handler's saved stack position is the very bottom of the stack
-	{"nolocals-try", "global (zero, neg, arr, G, OBJ, PANICSTR, PANICERR, PANICRT, PANICCUSTOM, PANICNIL, ERRFN, INVOKE, ABORTPANIC, ABORTERR)\ntry {\n  return %s\n} catch {\n  return \"caught\"\n}\n"},
-	{"nolocals-finally", "global (zero, neg, arr, G, OBJ, PANICSTR, PANICERR, PANICRT, PANICCUSTOM, PANICNIL, ERRFN, INVOKE, ABORTPANIC, ABORTERR)\ntry {\n  %s\n} finally {\n  G = 9\n}\n"},
-	{"catch", "global (zero, neg, arr, G, OBJ, PANICSTR, PANICERR, PANICRT, PANICCUSTOM, PANICNIL, ERRFN, INVOKE, ABORTPANIC, ABORTERR)\nthrowing := func() { throw error(\"thrown\") }\ntry {\n  throw \"x\"\n} catch e {\n  return %s\n}\n"},
-	{"finally", "global (zero, neg, arr, G, OBJ, PANICSTR, PANICERR, PANICRT, PANICCUSTOM, PANICNIL, ERRFN, INVOKE, ABORTPANIC, ABORTERR)\nthrowing := func() { throw error(\"thrown\") }\ntry {\n  return 1\n} finally {\n  %s\n}\n"},
-	{"callee", "global (zero, neg, arr, G, OBJ, PANICSTR, PANICERR, PANICRT, PANICCUSTOM, PANICNIL, ERRFN, INVOKE, ABORTPANIC, ABORTERR)\nthrowing := func() { throw error(\"thrown\") }\nf := func() {\n  return %s\n}\ng := func() {\n  try {\n    return f()\n  } finally {\n    G = 4\n  }\n}\nreturn g()\n"},
-	{"looptry", "global (zero, neg, arr, G, OBJ, PANICSTR, PANICERR, PANICRT, PANICCUSTOM, PANICNIL, ERRFN, INVOKE, ABORTPANIC, ABORTERR)\nthrowing := func() { throw error(\"thrown\") }\nn := 0\nfor i := 0; i < 3; i++ {\n  try {\n    %s\n  } catch {\n    n++\n  }\n}\nreturn n\n"},
-	{"invoker", "global (zero, neg, arr, G, OBJ, PANICSTR, PANICERR, PANICRT, PANICCUSTOM, PANICNIL, ERRFN, INVOKE, ABORTPANIC, ABORTERR)\nthrowing := func() { throw error(\"thrown\") }\nreturn INVOKE(func() {\n  return %s\n})\n"},
-	{"stringsmap", "global (zero, neg, arr, G, OBJ, PANICSTR, PANICERR, PANICRT, PANICCUSTOM, PANICNIL, ERRFN, INVOKE, ABORTPANIC, ABORTERR)\nthrowing := func() { throw error(\"thrown\") }\nstrings := import(\"strings\")\nreturn strings.Map(func(c) {\n  return %s\n}, \"ab\")\n"},
-	{"deep10", "global (zero, neg, arr, G, OBJ, PANICSTR, PANICERR, PANICRT, PANICCUSTOM, PANICNIL, ERRFN, INVOKE, ABORTPANIC, ABORTERR)\nthrowing := func() { throw error(\"thrown\") }\nvar r\nr = func(n) {\n  if n == 0 {\n    return %s\n  }\n  return r(n - 1) + 1\n}\nreturn r(10)\n"},
-	{"deep1000", "global (zero, neg, arr, G, OBJ, PANICSTR, PANICERR, PANICRT, PANICCUSTOM, PANICNIL, ERRFN, INVOKE, ABORTPANIC, ABORTERR)\nthrowing := func() { throw error(\"thrown\") }\nvar r\nr = func(n) {\n  if n == 0 {\n    return %s\n  }\n  return r(n - 1) + 1\n}\ntry {\n  return r(1000)\n} catch e {\n  return e.Name\n}\n"},
-	{"deep1021", "global (zero, neg, arr, G, OBJ, PANICSTR, PANICERR, PANICRT, PANICCUSTOM, PANICNIL, ERRFN, INVOKE, ABORTPANIC, ABORTERR)\nthrowing := func() { throw error(\"thrown\") }\nvar r\nr = func(n) {\n  if n == 0 {\n    return %s\n  }\n  return r(n - 1) + 1\n}\nreturn r(1020)\n"},
-	{"deep1022", "global (zero, neg, arr, G, OBJ, PANICSTR, PANICERR, PANICRT, PANICCUSTOM, PANICNIL, ERRFN, INVOKE, ABORTPANIC, ABORTERR)\nthrowing := func() { throw error(\"thrown\") }\nvar r\nr = func(n) {\n  if n == 0 {\n    return %s\n  }\n  return r(n - 1) + 1\n}\nreturn r(1021)\n"},
-	{"deep1023", "global (zero, neg, arr, G, OBJ, PANICSTR, PANICERR, PANICRT, PANICCUSTOM, PANICNIL, ERRFN, INVOKE, ABORTPANIC, ABORTERR)\nthrowing := func() { throw error(\"thrown\") }\nvar r\nr = func(n) {\n  if n == 0 {\n    return %s\n  }\n  return r(n - 1) + 1\n}\ntry {\n  return r(1022)\n} finally {\n  G = 5\n}\n"},
+	{"nolocals-try", "global (zero, neg, arr, G, OBJ, PANICSTR, PANICERR, PANICRT, PANICCUSTOM, PANICNIL, PANICTYPEDNIL, PANICBADERR, PANICNILRTE, ERRFN, INVOKE, ABORTPANIC, ABORTERR)\ntry {\n  return %s\n} catch {\n  return \"caught\"\n}\n"},
+	{"nolocals-finally", "global (zero, neg, arr, G, OBJ, PANICSTR, PANICERR, PANICRT, PANICCUSTOM, PANICNIL, PANICTYPEDNIL, PANICBADERR, PANICNILRTE, ERRFN, INVOKE, ABORTPANIC, ABORTERR)\ntry {\n  %s\n} finally {\n  G = 9\n}\n"},
+	{"catch", "global (zero, neg, arr, G, OBJ, PANICSTR, PANICERR, PANICRT, PANICCUSTOM, PANICNIL, PANICTYPEDNIL, PANICBADERR, PANICNILRTE, ERRFN, INVOKE, ABORTPANIC, ABORTERR)\nthrowing := func() { throw error(\"thrown\") }\ntry {\n  throw \"x\"\n} catch e {\n  return %s\n}\n"},
+	{"finally", "global (zero, neg, arr, G, OBJ, PANICSTR, PANICERR, PANICRT, PANICCUSTOM, PANICNIL, PANICTYPEDNIL, PANICBADERR, PANICNILRTE, ERRFN, INVOKE, ABORTPANIC, ABORTERR)\nthrowing := func() { throw error(\"thrown\") }\ntry {\n  return 1\n} finally {\n  %s\n}\n"},
+	{"callee", "global (zero, neg, arr, G, OBJ, PANICSTR, PANICERR, PANICRT, PANICCUSTOM, PANICNIL, PANICTYPEDNIL, PANICBADERR, PANICNILRTE, ERRFN, INVOKE, ABORTPANIC, ABORTERR)\nthrowing := func() { throw error(\"thrown\") }\nf := func() {\n  return %s\n}\ng := func() {\n  try {\n    return f()\n  } finally {\n    G = 4\n  }\n}\nreturn g()\n"},
+	{"looptry", "global (zero, neg, arr, G, OBJ, PANICSTR, PANICERR, PANICRT, PANICCUSTOM, PANICNIL, PANICTYPEDNIL, PANICBADERR, PANICNILRTE, ERRFN, INVOKE, ABORTPANIC, ABORTERR)\nthrowing := func() { throw error(\"thrown\") }\nn := 0\nfor i := 0; i < 3; i++ {\n  try {\n    %s\n  } catch {\n    n++\n  }\n}\nreturn n\n"},
+	{"invoker", "global (zero, neg, arr, G, OBJ, PANICSTR, PANICERR, PANICRT, PANICCUSTOM, PANICNIL, PANICTYPEDNIL, PANICBADERR, PANICNILRTE, ERRFN, INVOKE, ABORTPANIC, ABORTERR)\nthrowing := func() { throw error(\"thrown\") }\nreturn INVOKE(func() {\n  return %s\n})\n"},
+	{"stringsmap", "global (zero, neg, arr, G, OBJ, PANICSTR, PANICERR, PANICRT, PANICCUSTOM, PANICNIL, PANICTYPEDNIL, PANICBADERR, PANICNILRTE, ERRFN, INVOKE, ABORTPANIC, ABORTERR)\nthrowing := func() { throw error(\"thrown\") }\nstrings := import(\"strings\")\nreturn strings.Map(func(c) {\n  return %s\n}, \"ab\")\n"},
+	{"deep10", "global (zero, neg, arr, G, OBJ, PANICSTR, PANICERR, PANICRT, PANICCUSTOM, PANICNIL, PANICTYPEDNIL, PANICBADERR, PANICNILRTE, ERRFN, INVOKE, ABORTPANIC, ABORTERR)\nthrowing := func() { throw error(\"thrown\") }\nvar r\nr = func(n) {\n  if n == 0 {\n    return %s\n  }\n  return r(n - 1) + 1\n}\nreturn r(10)\n"},
+	{"deep1000", "global (zero, neg, arr, G, OBJ, PANICSTR, PANICERR, PANICRT, PANICCUSTOM, PANICNIL, PANICTYPEDNIL, PANICBADERR, PANICNILRTE, ERRFN, INVOKE, ABORTPANIC, ABORTERR)\nthrowing := func() { throw error(\"thrown\") }\nvar r\nr = func(n) {\n  if n == 0 {\n    return %s\n  }\n  return r(n - 1) + 1\n}\ntry {\n  return r(1000)\n} catch e {\n  return e.Name\n}\n"},
+	{"deep1021", "global (zero, neg, arr, G, OBJ, PANICSTR, PANICERR, PANICRT, PANICCUSTOM, PANICNIL, PANICTYPEDNIL, PANICBADERR, PANICNILRTE, ERRFN, INVOKE, ABORTPANIC, ABORTERR)\nthrowing := func() { throw error(\"thrown\") }\nvar r\nr = func(n) {\n  if n == 0 {\n    return %s\n  }\n  return r(n - 1) + 1\n}\nreturn r(1020)\n"},
+	{"deep1022", "global (zero, neg, arr, G, OBJ, PANICSTR, PANICERR, PANICRT, PANICCUSTOM, PANICNIL, PANICTYPEDNIL, PANICBADERR, PANICNILRTE, ERRFN, INVOKE, ABORTPANIC, ABORTERR)\nthrowing := func() { throw error(\"thrown\") }\nvar r\nr = func(n) {\n  if n == 0 {\n    return %s\n  }\n  return r(n - 1) + 1\n}\nreturn r(1021)\n"},
+	{"deep1023", "global (zero, neg, arr, G, OBJ, PANICSTR, PANICERR, PANICRT, PANICCUSTOM, PANICNIL, PANICTYPEDNIL, PANICBADERR, PANICNILRTE, ERRFN, INVOKE, ABORTPANIC, ABORTERR)\nthrowing := func() { throw error(\"thrown\") }\nvar r\nr = func(n) {\n  if n == 0 {\n    return %s\n  }\n  return r(n - 1) + 1\n}\ntry {\n  return r(1022)\n} finally {\n  G = 5\n}\n"},
 }
 
 type c06wit struct {
@@ -338,7 +362,7 @@ func (m c06) run(c *core.Ctx, src, fault, context string, mm *ugo.ModuleMap, arg
 	return nontrivial
 }
 
-const c06hdr = "global (zero, neg, arr, G, OBJ, PANICSTR, PANICERR, PANICRT, PANICCUSTOM, PANICNIL, ERRFN, INVOKE, ABORTPANIC, ABORTERR)\nthrowing := func() { throw error(\"thrown\") }\n"
+const c06hdr = "global (zero, neg, arr, G, OBJ, PANICSTR, PANICERR, PANICRT, PANICCUSTOM, PANICNIL, PANICTYPEDNIL, PANICBADERR, PANICNILRTE, ERRFN, INVOKE, ABORTPANIC, ABORTERR)\nthrowing := func() { throw error(\"thrown\") }\n"
 
 // delivery: a fault raised inside a script function that has its own try/catch/finally is delivered to that catch and
 // finally in the same way whether the function is called by the script, run on a child VM through an Invoker inside a Go
